@@ -103,12 +103,31 @@ func (p *Prog) errSinks(v ssa.Value) []ssa.Instruction {
 
 // pathLabel extracts the constant path components of a filepath.Join based
 // argument ("data/files.json" -> files.json), used to name tolerances.
+// pathLabelSubst: parameters of a shared helper replaced by the actual
+// arguments of the call being labelled (set by pathLabelAt only).
+var pathLabelSubst = map[ssa.Value]ssa.Value{}
+
+// pathLabelAt labels a path expression inside helper h as seen from the call `at`.
+func pathLabelAt(v ssa.Value, h *ssa.Function, at ssa.Instruction) string {
+	args := callArgs(at)
+	for i, prm := range h.Params {
+		if i < len(args) {
+			pathLabelSubst[prm] = args[i]
+		}
+	}
+	defer func() { pathLabelSubst = map[ssa.Value]ssa.Value{} }()
+	return pathLabel(v)
+}
+
 func pathLabel(v ssa.Value) string {
 	var parts []string
 	seen := map[ssa.Value]bool{}
 	var walk func(v ssa.Value)
 	walk = func(v ssa.Value) {
 		v = strip(v)
+		if a, ok := pathLabelSubst[v]; ok {
+			v = strip(a)
+		}
 		if seen[v] {
 			return
 		}
